@@ -425,6 +425,10 @@ class C04(Harness):
             r["replaced"] = [n for n, e, *_ in items if e is new] == [comp]
             r["others_kept"] = len(items)
             r["nested_after_replace"] = self._same(est.get_params(deep=True)["%s__window_length" % comp], v)
+            # ... and the replacement together with a nested parameter of it, in ONE call (the replacement comes first)
+            new2 = NF("mean")
+            est.set_params(**{comp: new2, "%s__window_length" % comp: v})
+            r["combined"] = self._same(new2.window_length, v)
             try:
                 est.set_params(**{"%s__no_such" % comp: 1})
                 r["unknown_nested"] = "accepted"
@@ -784,6 +788,8 @@ class C04(Harness):
                     chk("nested-param-read-write", r["read"], d)
                 if "cv" in r:
                     chk("nested-param-read-write", r["cv"], d)
+                if "combined" in r:
+                    chk("component-replaced-by-name", r["combined"], dict(d, what="replacement and nested parameter of it in one call"))
                 if "replaced" in r:
                     P.check("component-replaced-by-name", r["replaced"] and r["others_kept"] == 2, d)
                     chk("component-replaced-by-name", r["nested_after_replace"], d)
